@@ -469,6 +469,7 @@ def main(argv=None):
     prop = args.prop
     seed = int(os.environ.get("VERIF_SEED", "0") or 0)
     tier = args.tier
+    os.environ["VERIF_TIER"] = tier      # contract modules size their configuration tables by tier
     timeout_s = 10 if tier == "quick" else 60
     if os.environ.get("VERIF_TIMEOUT"):
         timeout_s = float(os.environ["VERIF_TIMEOUT"])
